@@ -32,11 +32,11 @@ func reqKey(k uint64) uint64 { return k ^ 0x5bd1e995a5a5 }
 // plan tells the handler of one stream what to do.
 type plan struct {
 	Key    uint64
-	Resp   int64 // response body size
-	W      int   // bytes per Write
-	Flush  bool  // Flush after every Write
-	CL     bool  // declare Content-Length
-	Abort  int64 // >= 0: after that many body bytes (flushed) panic(http.ErrAbortHandler)
+	Resp   int64  // response body size
+	W      int    // bytes per Write
+	Flush  bool   // Flush after every Write
+	CL     bool   // declare Content-Length
+	Abort  int64  // >= 0: after that many body bytes (flushed) panic(http.ErrAbortHandler)
 	Req    string // none | all | part | ignore | close | partclose
 	ReqN   int64
 	ReadSz int
@@ -46,10 +46,10 @@ type plan struct {
 	bodyClosed chan struct{} // closed by the handler once it has closed the request body
 	done       chan struct{} // closed when the handler returns
 
-	read   int64 // request body bytes the handler read
-	badAt  int64 // first offset with wrong content (-1: none)
-	rerr   string
-	werr   string
+	read  int64 // request body bytes the handler read
+	badAt int64 // first offset with wrong content (-1: none)
+	rerr  string
+	werr  string
 }
 
 type scfg struct {
@@ -284,12 +284,12 @@ type treq struct {
 	done   chan struct{}
 	gotHdr chan struct{} // closed when RoundTrip returned
 
-	err      string
-	status   int
-	read     int64
-	badAt    int64
-	bodyErr  string
-	respKey  uint64
+	err     string
+	status  int
+	read    int64
+	badAt   int64
+	bodyErr string
+	respKey uint64
 }
 
 type genReader struct {
